@@ -7,6 +7,11 @@ CLAIMED = {
         design_ref='DESIGN.md §5 C15',
         note='bounded operand magnitude (quick: rational 2^3, inf_rational/lin 2^2 with <=2 terms; thorough: 2^4 / 2^3 with <=3 terms); clang AST + xtract emitter + cmodel (std::map, gcd, lcm) + CBMC/DFCC trusted; to_string not covered',
         technique='contract-based deductive verification (CBMC function contracts via goto-instrument --dfcc) on C extracted from the real C++'),
+    'C13': dict(
+        text='sat_core::new_eq / new_conj / new_disj / new_at_most_one / new_exct_one are extracted to C on every run and proved against contracts stating, for one arbitrary (ghost) total assignment, that the returned literal is equivalent to the formula (cardinality constructs: forces the constraint, excludes no assignment, is true-able whenever the constraint holds), that the root assignment is unchanged and that requesting the literal is conservative; new_var and new_clause are replaced by contracts in those proofs and their real bodies are proved against the same contracts.',
+        design_ref='DESIGN.md §5 C13',
+        note='bounded: <=4 pre-existing variables with symbolic root values, argument lists <=3 literals (quick: cardinality constructs <=2), pairwise encoding only in quick; expression cache restricted to states without a cached reified expression (cache-hit reuse not covered); std::sort modelled as a stable insertion sort; string keys modelled as token sequences; product encoding (n>=4) only in the thorough tier',
+        technique='contract-based deductive verification (CBMC function contracts via goto-instrument --dfcc, callee contracts by --replace-call-with-contract, ghost clause log) on C extracted from the real C++'),
 }
 
 _DEFAULT_NA = 'not yet brought under contract in this state of the machinery (see DESIGN.md §5 for the planned contracts)'
